@@ -133,6 +133,37 @@ func runR111(c *Ctx) {
 				})
 			}
 			c.Check(ret, FuncName(g), "returns-error", c.Pos(cl.Pos()), "the backend's error is returned to the group", "the error of "+fld+".Put is dropped: a failed replica write would be reported as success")
+			// … on every path on which the write failed
+			bad := ""
+			explorePaths(&pathSpec{Fn: g, Init: 0,
+				Step: func(st int, ev pathEvent) int {
+					if isNil, ok := edgeSaysErr(ev, cl); ok {
+						if isNil {
+							return 0
+						}
+						return 1
+					}
+					return st
+				},
+				AtReturn: func(st int, r *ssa.Return, _ map[int]bool) {
+					if st != 1 || bad != "" {
+						return
+					}
+					derived := false
+					if !isNilConst(r.Results[0]) {
+						deepSlice(g, r.Results[0], func(x ssa.Value) bool {
+							if x == ssa.Value(cl) {
+								derived = true
+								return false
+							}
+							return true
+						})
+					}
+					if !derived {
+						bad = c.Pos(r.Pos())
+					}
+				}})
+			c.Check(bad == "", FuncName(g), "failed-write-reported", c.Pos(cl.Pos()), "every path on which "+fld+".Put failed returns that error to the group", "a path on which "+fld+".Put failed returns something else than that error (return at "+bad+"): the upload can be acknowledged although this replica lacks the object")
 		})
 	}
 	ok := backends["backendA"] == 1 && backends["backendB"] == 1 && halves[0] && halves[1] && sameGroup
